@@ -324,3 +324,20 @@ impl ReadCursor {
         }
     }
 }
+
+#[cfg(multiqueue2_verif)]
+impl Reader {
+    pub fn verif_layout(&self, l: &mut crate::verif_hooks::Layout) {
+        unsafe {
+            l.pos = (*self.pos).pos_data.verif_addr();
+            l.meta = &(*self.meta).num_consumers as *const AtomicUsize as usize;
+        }
+    }
+}
+
+#[cfg(multiqueue2_verif)]
+impl ReadCursor {
+    pub fn verif_addr(&self) -> usize {
+        &self.readers as *const _ as usize
+    }
+}
